@@ -152,6 +152,12 @@ func c01Families() []*c01Family {
 			f2c = append(f2c, "http://"+w+"a.b"+p)
 		}
 	}
+	// F5: several schemes over one subtree (a node shared by patterns of different schemes, sibling hosts that
+	// diverge right in front of a label boundary, wildcard-subdomain + wildcard-port entries on the shared node)
+	var f5 []string
+	for _, sc := range []string{"http", "https"} {
+		f5 = append(f5, sc+"://x.a.b", sc+"://y.a.b:8080", sc+"://*.a.b:*", sc+"://*.a.b")
+	}
 	f3 := []string{
 		"http://1.2.3.4", "http://127.0.0.1", "http://127.0.0.1:8080", "http://127.0.0.1:*",
 		"http://[::1]", "http://[::1]:9090", "http://[::1]:*", "http://[2001:db8::1]",
@@ -170,6 +176,7 @@ func c01Families() []*c01Family {
 		{name: "F2b-schemes", patterns: f2b},
 		{name: "F2c-ports", patterns: f2c},
 		{name: "F3-literals-extremes", patterns: f3},
+		{name: "F5-schemes-over-one-subtree", patterns: f5},
 	}
 }
 
@@ -465,6 +472,53 @@ func checkC01(c *vlib.Ctx) (string, string) {
 			famInfo[f4.name] = map[string]any{"patterns": len(f4.patterns), "probes": len(f4.probes), "sequences": total, "length": depth, "note": "sequences with repeated patterns cover the shorter lengths"}
 		}
 	}
+	// F6: systematic product hosts x {exact,*.} x schemes x ports: every sequence of the stated length
+	if !c.Stopped() {
+		f6 := &c01Family{name: "F6-product"}
+		for _, h := range []string{"a.b", "x.a.b", "y.a.b", "xa.b"} {
+			for _, w := range []string{"", "*."} {
+				for _, sc := range []string{"http", "https"} {
+					for _, pt := range []string{"", ":81", ":*"} {
+						f6.patterns = append(f6.patterns, sc+"://"+w+h+pt)
+					}
+				}
+			}
+		}
+		f6.probes = c01Probes(f6.patterns)
+		if prep, fl := c01Prepare(f6); fl != nil {
+			ck.Report(c01Case{f6.patterns, "", "tree"}, fl)
+		} else {
+			depth := vlib.Pick(c, 3, 4)
+			np := int64(len(f6.patterns))
+			total := int64(1)
+			for i := 0; i < depth; i++ {
+				total *= np
+			}
+			c.ParRange(total, 64, "C01 F6", func(i int64) {
+				hist := make([]uint8, depth)
+				x := i
+				for j := depth - 1; j >= 0; j-- {
+					hist[j] = uint8(x % np)
+					x /= np
+				}
+				if _, bad := prep.run(hist); bad >= 0 {
+					k := c01Case{Via: "tree", Origin: f6.probes[bad]}
+					for _, op := range hist {
+						k.Patterns = append(k.Patterns, f6.patterns[op])
+					}
+					if jf := vlib.Guard(func() *vlib.Failure { return c01Judge(k) }); jf != nil {
+						ck.Report(k, jf)
+					} else {
+						vlib.HarnessError("F6 enumeration and judge disagree on %+v", k)
+					}
+				}
+			})
+			c.Transitions.Add(total * int64(depth))
+			c.States.Add(total)
+			c.Evaluations.Add(total * int64(len(f6.probes)))
+			famInfo[f6.name] = map[string]any{"patterns": len(f6.patterns), "probes": len(f6.probes), "sequences": total, "length": depth, "note": "stateless; sequences with repeated patterns cover the shorter lengths"}
+		}
+	}
 	// API pass: all ordered lists over the union of F1-F3 plus "*"
 	if !c.Stopped() {
 		union = append(union, "*")
@@ -478,7 +532,7 @@ func checkC01(c *vlib.Ctx) (string, string) {
 			apiUnion = nil
 			for _, f := range fams {
 				lim := 8
-				if !slices.Contains([]string{"F1-suffix-collisions", "F2a-ports-two-hosts", "F2b-schemes", "F3-literals-extremes"}, f.name) {
+				if !slices.Contains([]string{"F1-suffix-collisions", "F2a-ports-two-hosts", "F2b-schemes", "F3-literals-extremes", "F5-schemes-over-one-subtree"}, f.name) {
 					continue
 				}
 				if f.name == "F3-literals-extremes" {
